@@ -540,3 +540,32 @@ func liveValue(v ssa.Value, at ssa.Instruction) ssa.Value {
 	}
 	return v
 }
+
+// mapUpdateOneOf selects the updates of a map that is held in one of the given
+// fields: the map operand is a load of one of them, or a variable that holds a
+// load of one of them on every incoming edge (`m := a; if p { m = b }; m[k] =
+// v`, or a helper returning the one or the other). covered reports, for an
+// instruction selected, how many of the fields it may write.
+func mapUpdateOneOf(fields ...*types.Var) (sel Sel, covered func(ssa.Instruction) int) {
+	which := func(v ssa.Value) map[*types.Var]bool {
+		out := map[*types.Var]bool{}
+		for _, f := range fields {
+			if loadsField(f)(v) { // follows result variables (phis)
+				out[f] = true
+			}
+		}
+		return out
+	}
+	sel = func(in ssa.Instruction) bool {
+		mu, ok := in.(*ssa.MapUpdate)
+		return ok && len(which(mu.Map)) > 0
+	}
+	covered = func(in ssa.Instruction) int {
+		mu, ok := in.(*ssa.MapUpdate)
+		if !ok {
+			return 0
+		}
+		return len(which(mu.Map))
+	}
+	return
+}
